@@ -112,7 +112,7 @@ class Scope:
         """Checks if offset is in scope region"""
 
         region = self.get_region()
-        return region[0] < offset < region[1]
+        return region[0] <= offset < region[1]
 
 
 class GlobalScope(Scope):
